@@ -111,7 +111,9 @@ func NewFloatFromString(typ *types.FloatType, s string) (*Float, error) {
 			if err != nil {
 				return nil, errors.WithStack(err)
 			}
-			f := binary128.NewFromBits(a, b)
+			// Note, the first 16 hexadecimal digits hold the low 64 bits and the
+			// last 16 digits the high 64 bits (as printed and read by LLVM).
+			f := binary128.NewFromBits(b, a)
 			x, nan := f.Big()
 			return &Float{Typ: typ, X: x, NaN: nan}, nil
 		// ppc_fp128 (PowerPC double-double arithmetic)
@@ -414,21 +416,22 @@ func (c *Float) Ident() string {
 		return fmt.Sprintf("0x%c%04X%016X", hexPrefix, se, m)
 	// fp128 (IEEE 754 quadruple precision)
 	case types.FloatKindFP128:
-		// always represent fp128 in hexadecimal floating-point notation.
+		// always represent fp128 in hexadecimal floating-point notation; the low
+		// 64 bits are printed first, then the high 64 bits (as LLVM does).
 		const hexPrefix = 'L'
 		if c.NaN {
 			a, b := binary128.NaN.Bits()
 			if c.X != nil && c.X.Signbit() {
 				a, b = binary128.NegNaN.Bits()
 			}
-			return fmt.Sprintf("0x%c%016X%016X", hexPrefix, a, b)
+			return fmt.Sprintf("0x%c%016X%016X", hexPrefix, b, a)
 		}
 		f, acc := binary128.NewFromBig(c.X)
 		if acc != big.Exact {
 			log.Printf("unable to represent floating-point constant %v of type %v exactly; please submit a bug report to llir/llvm with this error message", c.X, c.Typ)
 		}
 		a, b := f.Bits()
-		return fmt.Sprintf("0x%c%016X%016X", hexPrefix, a, b)
+		return fmt.Sprintf("0x%c%016X%016X", hexPrefix, b, a)
 	// ppc_fp128 (PowerPC double-double arithmetic)
 	case types.FloatKindPPC_FP128:
 		// always represent ppc_fp128 in hexadecimal floating-point notation.
